@@ -378,6 +378,7 @@ def check(model: Model, report: Report) -> None:
     report.rule("R02.2", "embedded queries evaluate to a nodelist on every path and start from context.current (@) / context.root ($) carrying the root of the query argument")
     report.rule("R02.3", "test truthiness: empty nodelist false, non-empty true whatever the node values are, booleans themselves")
     report.rule("R02.4", "&&, ||, ! are classical logic over test truthiness, operands in source order")
+    report.rule("R02.6", "the parser builds exactly the expression tree the grammar describes for ~45 token shapes: operators kept, negations kept, grouping by precedence and associativity, @ / $ queries")
     report.rule("R02.5", "precedence table || < && < comparison < !; operator tables; @ and $ build Relative/Root queries")
     report.assumptions += ["A1 host truthiness/len/isinstance semantics"]
     report.not_decided += ["grouping for arbitrary parenthesisation beyond the precedence/grouping shapes checked by C12/C04 rules"]
@@ -386,4 +387,7 @@ def check(model: Model, report: Report) -> None:
     check_truthiness(model, report, "R02.3")
     check_logic(model, report, "R02.4")
     check_tables(model, report, "R02.5")
+    from . import _shapes
+
+    _shapes.check_trees(model, report, "R02.6")
     report.extra["explanation"] = "C02: filter selector trace per kind x outcome; truthiness and logic tables over (bool, empty/singleton-of-each-kind/many nodelists); scoping of @/$ with concrete root flow; parser tables evaluated from Parser.__init__ and class attributes."
